@@ -346,6 +346,13 @@ def r05_3(ctx):
                     for e in p.events:
                         if e[0] == "call" and e[1].rsplit("::", 1)[1] == how and e[2][0] == ("field", ("param", 1), fld, "action::Action") and mentions(e[2][1], lambda x: x[0] in ("local", "variant")):
                             ok = True
+            if not ok:
+                # the same as one call: self.<fld>.extend(other.<fld>) / .append(&mut other.<fld>)
+                for p in s.paths():
+                    for e in p.events:
+                        if e[0] == "call" and e[1].rsplit("::", 1)[1] in ("extend", "append", "extend_from_slice") and len(e[2]) == 2 and e[2][0] == ("field", ("param", 1), fld, "action::Action") \
+                                and mentions(e[2][1], lambda x: x == ("field", ("param", 2), fld, "action::Action")) and not mentions(e[2][1], lambda x: x[0] == "call" and x[1].rsplit("::", 1)[1] in ("rev", "filter", "skip", "take", "step_by")):
+                            ok = True
             r.ob("merge:append:%s" % fld, ok, f.site, "other.%s is appended to self.%s in order" % (fld, fld))
     ctx.run_rule("R05.3", "merge tables (status code and log override agree; lists appended)", body, floor=6)
 
